@@ -220,6 +220,48 @@ def oracle_cons(case, ob, cap):
     return None
 
 
+# =============================================================================== schedule stream (consumer, real threads)
+def compositions(parts):
+    """all ways to cut a list into consecutive non-empty groups (= report messages)"""
+    if not parts:
+        yield []
+        return
+    for k in range(1, len(parts) + 1):
+        for rest in compositions(parts[k:]):
+            yield [parts[:k]] + rest
+
+
+def gen_sched_scenarios(rng, thorough):
+    out = []
+    for shape, rst, sts in SHAPES:
+        own = [[7, st, k] for k, st in enumerate(sts)]
+        for groups in compositions(own):
+            reports = [list(g) for g in groups]
+            if rng.random() < 0.5:       # a report for somebody else's transaction somewhere in between
+                reports.insert(rng.randint(0, len(reports)), [[900, rng.choice(FINALS), 50]])
+            out.append({'shape': shape, 'txs': {7: (rst, sts)}, 'calls': [[7, rst]], 'reports': reports})
+    for _ in range(12 if thorough else 3):    # two calling threads
+        (_, r1, s1), (_, r2, s2) = rng.choice(SHAPES), rng.choice(SHAPES)
+        tag = itertools.count()
+        p1 = [[7, st, next(tag)] for st in s1]
+        p2 = [[8, st, next(tag)] for st in s2]
+        merged = rng.choice(list(merges(p1, p2))) if (p1 or p2) else []
+        groups = rng.choice(list(compositions(merged))) if merged else []
+        out.append({'shape': 'two-calls', 'txs': {7: (r1, s1), 8: (r2, s2)}, 'calls': [[7, r1], [8, r2]],
+                    'reports': [list(g) for g in groups]})
+    return out
+
+
+def linearise(order):
+    """the critical sections in the order in which the lock was taken = the equivalent sequential event list"""
+    out = []
+    for u in order:
+        if u is None or (out and out[-1] is u):
+            continue
+        out.append(u)
+    return [list(u) for u in out]
+
+
 # =============================================================================== provider stream
 def gen_req(rng, p_real=0.3, kinds=range(7)):
     kind = rng.choice(list(kinds))
@@ -493,7 +535,10 @@ def run(ctx):
     pcases = [gen_prov_case(rng, c, qcap) for c in classes]
     conc = {'rounds': [gen_conc_round(rng, rng.randint(3, 5), rng.randint(4, 7)) for _ in range(ctx.n(3, 14))]}
 
-    impl = ctx.impl('c09_impl', {'cons': [c['events'] for c in ccases], 'prov': pcases, 'conc': conc},
+    scen = gen_sched_scenarios(rng, ctx.thorough)
+    impl = ctx.impl('c09_impl', {'cons': [c['events'] for c in ccases], 'prov': pcases, 'conc': conc,
+                                 'sched': {'limit': ctx.n(300, 3000),
+                                           'scenarios': [{'calls': sc['calls'], 'reports': sc['reports']} for sc in scen]}},
                     timeout=ctx.n(400, 3000))
     ctx.log(f'implementation run finished at {time.time() - ctx.t0:.1f}s')
     if impl.get('_crash'):
@@ -526,6 +571,46 @@ def run(ctx):
     hist['report_before_response'] = sum(1 for c in ccases if c['txs'] and c['events'] and c['events'][0][0] == 'rep')
     ctx.count('cons', len(ccases), [json.dumps(ob, sort_keys=True) for ob in impl['cons']], histogram=hist)
     ctx.sample({'stream': 'cons', 'events': ccases[3]['events'], 'observed': impl['cons'][3]})
+
+    # schedules: every interleaving of the calling thread(s) with the notification thread at the granularity of lock
+    # acquisitions and accesses to buffer / table; each run is judged by the same oracle on the sequence of its critical
+    # sections, and compared with the model run on that sequence (the model's atomic steps ARE the critical sections)
+    shist = {'scenarios': len(scen), 'schedules': 0, 'exploration_cut': 0, 'accesses_without_lock': 0,
+             'report_section_before_response': 0, 'max_schedules_per_scenario': 0}
+    slits, sruns = [], []
+    for sc, res in zip(scen, impl['sched']):
+        shist['schedules'] += len(res['runs'])
+        shist['exploration_cut'] += not res['complete']
+        shist['max_schedules_per_scenario'] = max(shist['max_schedules_per_scenario'], len(res['runs']))
+        for r in res['runs']:
+            lin = linearise(r['order'])
+            shist['accesses_without_lock'] += len(r['unlocked'])
+            shist['report_section_before_response'] += bool(lin and lin[0][0] == 'rep')
+            bad = oracle_cons({'events': lin, 'txs': sc['txs']}, r['obs'], cap)
+            if bad:
+                clause, why = bad
+                ctx.fail(f'schedule stream ({sc["shape"]}): {why}; schedule {r["choices"]}: {" ".join(r["trace"])[:600]}',
+                         {'stream': 'sched', 'clause': clause},
+                         {'stream': 'sched', 'case': {'calls': sc['calls'], 'reports': sc['reports'], 'choices': r['choices'],
+                                                      'txs': sc['txs']},
+                          'impl_trace': r, 'critical_sections': lin,
+                          'oracle': {'verdict': 'fail', 'clause': clause, 'why': why}})
+            slits.append((lit_cons(lin), lit_cons_obs(r['obs'])))
+            sruns.append((sc, r, lin))
+    mism, err = ctx.coq_mism('sched', HEADER, 'cons_eqb', 'run_cons', slits, shard=200, deps=DEPS)
+    if err:
+        ctx.broken('correspondence', 'sched (coq evaluation)', err)
+    if mism:
+        sc, r, lin = sruns[mism[0]]
+        model = ctx.coq_eval(HEADER, f'run_cons {slits[mism[0]][0]}')
+        ctx.broken('correspondence', 'sched', {'disagreements': len(mism), 'scenario': {'calls': sc['calls'], 'reports': sc['reports']},
+                                               'schedule': r['choices'], 'trace': r['trace'], 'critical_sections': lin,
+                                               'impl_trace': r['obs'], 'model_trace': model[-2000:]})
+    ctx.count('sched', len(slits), [json.dumps([lin, r['obs']], sort_keys=True) for _, r, lin in sruns], histogram=shist)
+    if sruns:
+        ctx.sample({'stream': 'sched', 'calls': sruns[1][0]['calls'], 'reports': sruns[1][0]['reports'],
+                    'schedule': sruns[1][1]['trace'], 'observed': sruns[1][1]['obs']})
+    ctx.log(f'schedule stream compared at {time.time() - ctx.t0:.1f}s')
 
     # provider: oracle + correspondence
     traces = impl['prov']['traces']
@@ -629,13 +714,19 @@ def run(ctx):
              'among the 1-3 reports of every legal shape, with foreign parts up to and beyond the buffer bound, random '
              'multi-transaction interleavings and malformed sequences; completions, pending table and buffer compared with the '
              'model.  concurrent: 3-5 consumer threads, ids / lock discipline / per-transaction legality by the oracle, outputs '
-             'compared with the model in id order.  distinct = distinct implementation traces',
+             'compared with the model in id order.  schedules: call_operation and on_operation_invoked_report in real threads '
+             'under an explicit scheduler (hooked lock, buffer and table) that enumerates every interleaving at the granularity of '
+             'lock acquisitions and shared-state accesses, for every legal shape and every grouping of its parts into report '
+             'messages; each schedule judged by the oracle on, and compared with the model run on, the sequence of its critical '
+             'sections.  distinct = distinct implementation traces',
         assumptions=['handlers return a final state (ExecuteResult contract) - other outcomes are only exercised in the model',
                      'the caller keeps the result handle alive (the manager holds a weak reference)',
                      'reports of one transaction reach a subscriber in the order they were sent (one worker thread, synchronous '
                      'delivery); only the position of the response among them varies',
                      'a request is refused with a SOAP fault when the worker queue holds sco_queue_cap operations for the whole '
                      'put timeout (C09_refused_only_when_full); the harness lets that timeout elapse at once',
+                     'one model step = one critical section under _transactions_lock: checked by the translator (every buffer / '
+                     'table access with the lock held -> consumer_state_under_lock, part of gen_ok) and by the schedule stream',
                      'at most recent_cap report parts arrive between the first report of a transaction and its response '
                      '(C09_overflow_refuted shows the bound is sharp)'],
         trusted_base=['translator harness/impl/gen_invocation_consts.py (live objects, probes of handle_operation_request and '
@@ -657,6 +748,17 @@ def replay(ctx, rep):
         impl = ctx.impl('c09_impl', {'cons': [ev]})
         print('implementation:', json.dumps(impl.get('cons', impl)))
         print('model:', ctx.coq_eval(HEADER, f'run_cons {lit_cons(ev)}')[-2000:])
+    elif stream == 'sched':
+        c = rep['case']
+        impl = ctx.impl('c09_impl', {'sched': {'limit': 3000, 'scenarios': [{'calls': c['calls'], 'reports': c['reports']}]}})
+        runs = impl['sched'][0]['runs']
+        hit = [r for r in runs if r['choices'] == c['choices']] or runs[:1]
+        for r in hit:
+            lin = linearise(r['order'])
+            print('schedule:', r['choices'], ' '.join(r['trace']))
+            print('implementation:', json.dumps(r['obs']))
+            print('model on the critical sections:', ctx.coq_eval(HEADER, f'run_cons {lit_cons(lin)}')[-1500:])
+            print('oracle:', oracle_cons({'events': lin, 'txs': {int(k): tuple(v) for k, v in c['txs'].items()}}, r['obs'], 50))
     elif stream == 'prov':
         impl = ctx.impl('c09_impl', {'prov': [rep['case']['ops']]})
         print('implementation:', json.dumps(impl.get('prov', impl))[:6000])
